@@ -10,6 +10,7 @@ import DateutilVerif.Proofs.RRuleGenCached
 import DateutilVerif.Proofs.RRuleGenUse
 import DateutilVerif.Proofs.RRuleGenInit
 import DateutilVerif.Proofs.RRuleGenInitAll
+import DateutilVerif.Proofs.RRuleGenInitWhole
 import DateutilVerif.Properties.C01
 
 namespace C01
@@ -256,6 +257,18 @@ theorem gen_init_byweekday_eq_model (a : Args) :
     Full statement wanted: `Gen.init fwd a = (constructW fwd a, origArgs a ·)` for a translation of the whole function. -/
 theorem gen_construct_eq_model_partial (fwd : Int) (a : Args) : RRuleGen.initSections fwd a = constructW fwd a :=
   RRuleGen.initSections_eq fwd a
+
+/-- **`rrule.__init__` as written now = the model's constructor**: `Gen.init` — every statement of the function translated in
+    sequence (Generated/RRuleKernels.lean) — returns, for every argument set `a` and every ambient first weekday `fwd`, the same
+    ValueError or the same normalised rule as `constructW fwd a`, field for field (`cache` is irrelevant).
+    What the translation leaves out of the function text (each a documented rule of `translate_rr.clean_init` / the `Args`
+    conventions, not a proof gap): the `_original_rule` bookkeeping (hand model `origArgs`), `warn(...)`, the UNTIL / DTSTART
+    awareness check (`Args` carries one zone tag), and the branches for `dtstart` / `until` given as `date` or omitted and for BY
+    arguments given as scalars / weekday objects (`Args` holds datetimes, 1-tuples and `(weekday, n)` pairs). -/
+theorem gen_construct_eq_model (fwd : Int) (a : Args) (cache : Bool) :
+    Gen.init fwd a.tz a.freq a.dtstart a.interval a.wkst a.count a.untilDT a.bysetpos a.bymonth a.bymonthday a.byyearday
+      a.byeaster a.byweekno a.byweekday a.byhour a.byminute a.bysecond cache = constructW fwd a := by
+  rw [RRuleGen.init_eq_sections, RRuleGen.initSections_eq]
 
 example : (RRuleGen.initSections 0 { freq := 1, byweekday := some [(4, 1), (0, 0)], dtstart := { y := 1997, m := 9, d := 2, hh := 9, mm := 0, ss := 0, us := 5 } }).toOption.map (fun r => r.bynweekday) =
     some (some [(4, 1)]) := by decide +kernel
